@@ -664,4 +664,173 @@ theorem escape_newline (lookup : List Char → Option (List Char)) :
   · have h1 : matchUnescapeAllRe ['\\', '\n'] = none := by decide
     simp [unescapeAll, unescapeScan_nomatch lookup _ _ h1,
       unescapeScan_nomatch lookup _ _ (matchUnescapeAllRe_single '\n'), unescapeScan_nil]
+
+/-! ## the shipped table (`entities` crate as linked, names ending in `;`) -/
+
+section Table
+open MdIt.Gen.Entities
+
+/-- `get_entity_from_str` over the generated table -/
+def tableLookup : List Char → Option (List Char) := lookupIn table
+
+theorem table_rows : table.length = 2125 := by decide +kernel
+
+/-- a table name, as code points: ASCII only, `&` + named-reference syntax + `;` -/
+def nameFits (name : List Nat) : Bool :=
+  name.all (fun n => n < 128) &&
+  match name.map Char.ofNat with
+  | '&' :: rest => rest.getLast? == some ';' && namedSyntax rest.dropLast
+  | _ => false
+
+set_option maxRecDepth 100000 in
+theorem names_fit_chunks :
+    tableChunks.all (fun ch => ch.all (fun row =>
+      nameFits row.1 && row.2.all (fun n => n.isValidChar))) = true := by
+  decide +kernel
+
+/-- **C12 (`entity_names_fit_syntax`).** Every one of the 2125 names of the table is ASCII and has the
+    shape `&` + ASCII letter + 1–31 ASCII alphanumerics + `;` — the shape both `NAMED_RE` (path A) and
+    `ENTITY_RE` (path B) accept — and every value consists of scalar values. So `named_agree` applies
+    to every row (`table_named_agree`). -/
+theorem entity_names_fit_syntax : ∀ row ∈ table,
+    nameFits row.1 = true ∧ ∀ n ∈ row.2, n.isValidChar := by
+  intro row hrow
+  obtain ⟨ch, hch, hr⟩ := List.mem_flatten.1 hrow
+  have := names_fit_chunks
+  rw [List.all_eq_true] at this
+  have := this ch hch
+  rw [List.all_eq_true] at this
+  have := this row hr
+  simp at this
+  exact ⟨this.1, fun n hn => this.2 n hn⟩
+
+theorem ofNat_toNat_ascii : ∀ n < 128, (Char.ofNat n).toNat = n := by decide
+
+theorem map_ofNat_toNat (l : List Nat) (h : ∀ n ∈ l, n < 128) :
+    (l.map Char.ofNat).map Char.toNat = l := by
+  induction l with
+  | nil => rfl
+  | cons a t ih =>
+    simp only [List.map_cons, ofNat_toNat_ascii a (h a (by simp)), ih (fun n hn => h n (by simp [hn]))]
+
+/-- what `nameFits` says about the name as a string -/
+theorem nameFits_shape (name : List Nat) (h : nameFits name = true) :
+    (name.map Char.ofNat).map Char.toNat = name ∧
+    ∃ n, name.map Char.ofNat = '&' :: (n ++ [';']) ∧ namedSyntax n = true := by
+  unfold nameFits at h
+  simp only [Bool.and_eq_true] at h
+  refine ⟨map_ofNat_toNat name (by simpa using h.1), ?_⟩
+  have h2 := h.2
+  split at h2
+  · rename_i rest heq
+    simp only [Bool.and_eq_true, beq_iff_eq] at h2
+    obtain ⟨ys, hys⟩ := List.getLast?_eq_some_iff.1 h2.1
+    refine ⟨ys, by rw [heq, hys], ?_⟩
+    have h3 := h2.2
+    rw [hys] at h3
+    simpa using h3
+  · cases h2
+
+/-- fixed-width (40 code points) big-endian key of a name: numeric order = lexicographic order -/
+def nameKey (name : List Nat) : Nat :=
+  name.foldl (fun a n => a * 256 + n) 0 * 256 ^ (40 - name.length)
+
+def increasing : Nat → List Nat → Bool
+  | _, [] => true
+  | lo, x :: r => lo < x && increasing x r
+
+set_option maxRecDepth 100000 in
+/-- the generated table is strictly sorted by name -/
+theorem table_sorted : increasing 0 (table.map (fun row => nameKey row.1)) = true := by
+  decide +kernel
+
+theorem increasing_lt (lo : Nat) (l : List Nat) (h : increasing lo l = true) : ∀ x ∈ l, lo < x := by
+  induction l generalizing lo with
+  | nil => simp
+  | cons a t ih =>
+    simp [increasing] at h
+    intro x hx
+    simp at hx
+    rcases hx with rfl | hx
+    · exact h.1
+    · exact Nat.lt_trans h.1 (ih a h.2 x hx)
+
+theorem lookupNat_complete (t : List (List Nat × List Nat)) (lo : Nat)
+    (h : increasing lo (t.map (fun row => nameKey row.1)) = true) :
+    ∀ row ∈ t, lookupNat t row.1 = some row.2 := by
+  induction t generalizing lo with
+  | nil => simp
+  | cons a t ih =>
+    obtain ⟨k, v⟩ := a
+    simp [increasing] at h
+    intro row hrow
+    simp at hrow
+    rcases hrow with rfl | hrow
+    · simp [lookupNat]
+    · have hlt := increasing_lt _ _ h.2 (nameKey row.1) (List.mem_map.2 ⟨row, hrow, rfl⟩)
+      have hne : ¬ k = row.1 := fun he => by rw [he] at hlt; exact Nat.lt_irrefl _ hlt
+      simp [lookupNat, hne]
+      exact ih _ h.2 row hrow
+
+/-- **C12.** no name occurs twice: looking a row's name up yields that row's characters (so
+    first-match here and last-insert-wins in the Rust `HashMap` are the same function) -/
+theorem table_lookup_complete : ∀ row ∈ table, lookupNat table row.1 = some row.2 :=
+  lookupNat_complete table 0 table_sorted
+
+theorem lookupNat_some_mem (t : List (List Nat × List Nat)) (key v : List Nat)
+    (h : lookupNat t key = some v) : (key, v) ∈ t := by
+  induction t with
+  | nil => simp [lookupNat] at h
+  | cons a t ih =>
+    obtain ⟨k, v'⟩ := a
+    simp only [lookupNat] at h
+    split at h
+    · rename_i he; simp at he h; simp [he, h]
+    · simp [ih h]
+
+set_option maxRecDepth 100000 in
+theorem no_hash_chunks :
+    tableChunks.all (fun ch => ch.all (fun row => row.1[1]? != some 35)) = true := by
+  decide +kernel
+
+/-- **C12 (`table_no_hash`).** no table name starts with `&#`: the hypothesis of `numeric_agree` -/
+theorem table_no_hash (s : List Char) : tableLookup ('&' :: '#' :: s) = none := by
+  unfold tableLookup lookupIn
+  split
+  · rename_i v heq
+    have hmem := lookupNat_some_mem _ _ _ heq
+    obtain ⟨ch, hch, hr⟩ := List.mem_flatten.1 hmem
+    have := no_hash_chunks
+    rw [List.all_eq_true] at this
+    have := this ch hch
+    rw [List.all_eq_true] at this
+    have := this _ hr
+    simp at this
+  · rfl
+
+/-- **C12.** `named_agree` instantiated at every row of the shipped table: for each of the 2125 names,
+    inline text and `unescape_all` produce exactly the row's characters. -/
+theorem table_named_agree : ∀ row ∈ table,
+    entityRule tableLookup (row.1.map Char.ofNat) 0 (row.1.map Char.ofNat).length =
+      .ok (some ⟨(row.1.map Char.ofNat).length, row.2.map Char.ofNat, row.1.map Char.ofNat⟩) ∧
+    unescapeAllE tableLookup (row.1.map Char.ofNat) = .ok (row.2.map Char.ofNat) ∧
+    unescapeAll tableLookup (row.1.map Char.ofNat) = row.2.map Char.ofNat := by
+  intro row hrow
+  obtain ⟨hmap, n, hshape, hn⟩ := nameFits_shape row.1 (entity_names_fit_syntax row hrow).1
+  have hl : tableLookup ('&' :: (n ++ [';'])) = some (row.2.map Char.ofNat) := by
+    rw [← hshape]
+    simp [tableLookup, lookupIn, hmap, table_lookup_complete row hrow]
+  rw [hshape]
+  exact named_agree tableLookup n _ hn hl
+
+/-- **C12.** `numeric_agree` for the shipped table (its hypothesis is `table_no_hash`) -/
+theorem table_numeric_agree (cap : List Char) (h : numericBody cap = true) :
+    entityRule tableLookup ('&' :: '#' :: (cap ++ [';'])) 0 ('&' :: '#' :: (cap ++ [';'])).length =
+        .ok (some ⟨('&' :: '#' :: (cap ++ [';'])).length, codeToChars (entityCode cap),
+          '&' :: '#' :: (cap ++ [';'])⟩) ∧
+    unescapeAll tableLookup ('&' :: '#' :: (cap ++ [';'])) = codeToChars (entityCode cap) :=
+  let r := numeric_agree tableLookup cap h table_no_hash
+  ⟨r.1, r.2.2.1⟩
+
+end Table
 end MdIt.Entity
